@@ -93,9 +93,12 @@ EpochManager::CreateEpochGuard()  //
 {
   auto &tls = tls_fields_[IDManager::GetThreadID()];
   if (tls.heartbeat.expired()) {
+    CPP_UTILITY_VERIF_POINT("epoch.bind");
     tls.epoch.SetGrobalEpoch(&global_epoch_);
+    CPP_UTILITY_VERIF_POINT("epoch.bind");
     tls.heartbeat = IDManager::GetHeartBeat();
   }
+  CPP_UTILITY_VERIF_POINT("epoch.bind");
 
   return EpochGuard{&(tls.epoch)};
 }
@@ -137,6 +140,7 @@ EpochManager::CollectProtectedEpochs(  //
   for (size_t i = 0; i < kMaxThreadNum; ++i) {
     auto &tls = tls_fields_[i];
     if (tls.heartbeat.expired()) continue;
+    CPP_UTILITY_VERIF_POINT("epoch.scan");
 
     const auto protected_epoch = tls.epoch.GetProtectedEpoch();
     if (protected_epoch < std::numeric_limits<size_t>::max()) {
